@@ -2252,6 +2252,14 @@ def check(ctx):
     _rule4(model, rep)
     _rule5(model, rep)
     _rule6(ctx, rep)
+    from . import shared
+
+    shared.def_time_defaults(
+        ctx, rep, 'R-C07-7',
+        lambda mn: mn.startswith('dawgie.db') or mn == 'dawgie.tools.detach',
+        'no function of the database layer has a default argument that is evaluated at import time (a call, or a dawgie.context setting such as the store directory, which context.override / the worker entry point assign afterwards)',
+        'the existence test and the destination of db.util.move use different store directories: repeated content is reported new, or a catalogue entry points at a file that was discarded',
+    )
     for q, rn in model._runs.items():
         if rn.events:
             rep.analysed(ctx.prog.funcs[q])
